@@ -49,7 +49,8 @@ for n in names:
         meta["caught_by"]["caught"] = [c for c in old.get("caught", []) if "thorough" in c]
     json.dump(meta, open(d + "/meta.json", "w"), indent=1)
     rows.append((n, ", ".join(meta["caught_by"]["caught"]) or "MISSED", "; ".join("%s: %s" % (k, v["first_message"]) for k, v in res.items() if v["exit"] == 1)[:220]))
-    print(n, meta["caught_by"]["caught"] or "MISSED", flush=True)
+    infra = [k for k, v in res.items() if v["exit"] not in (0, 1)]
+    print(n, meta["caught_by"]["caught"] or ("INCONCLUSIVE (exit 2 from %s: rerun)" % ",".join(infra) if infra else "MISSED"), flush=True)
 # the table is rebuilt from every meta.json, so partial runs keep the other rows
 with open(V + "/seeded/RESULTS.md", "w") as f:
     f.write("# Seeded changes vs. checks (quick tier)\n\nEach row: a change made by an independent sub-agent that was given only the text of the property; "
